@@ -1,6 +1,7 @@
 import RTV.Lemmas.Literal
 import RTV.Lemmas.Format
 import RTV.Lemmas.Percent
+import RTV.Lemmas.FormatRead
 import RTV.Model.NumCfg
 /-!
 # C03 — numeric literals resolve to exactly the number written, in every culture
@@ -255,6 +256,60 @@ theorem percent_literal_general (tab : DigitTab) (c : Culture) (hc : c ∈ cultu
   · omega
   · omega
   · exact hdm h.symm
+
+/-- in every regenerated long format the decimal mark is neither a digit nor `-` -/
+theorem decimal_mark_foreign : (cultures.all fun c => decide (Dec.markOf c.longFormat < 48) &&
+    Dec.markOf c.longFormat != 45) = true := by decide
+
+/-- **C03(d) `format_canonical`: reads back as the value, no trailing zeros.** For every regenerated culture and every
+decimal with exponent ≤ 0 and adjusted exponent ≥ −6, reading the resolution string with the culture's decimal mark
+(`Dec.readPlain`: sign, all digits `M`, number `k` of fraction digits) gives the sign of `d` and
+`M / 10^k = coeff · 10^exp` (cross-multiplied); a printed fraction never ends in `0`. -/
+theorem format_canonical_reads_back (c : Culture) (hc : c ∈ cultures) (d : Dec) (he : d.exp ≤ 0)
+    (hadj : d.exp + ((Dec.digitsOf d.coeff).length : Int) > -6) :
+    ∃ M k, Dec.readPlain (Dec.markOf c.longFormat) (Dec.format c.longFormat d) = (d.neg, M, k) ∧
+      M * 10 ^ (-d.exp).toNat = d.coeff * 10 ^ k ∧ (0 < k → M % 10 ≠ 0) := by
+  have h := decimal_mark_foreign
+  rw [List.all_eq_true] at h
+  have hm := h c hc
+  simp only [Bool.and_eq_true, decide_eq_true_eq, bne_iff_ne, ne_eq] at hm
+  exact Dec.format_reads_back c.longFormat d he hadj hm
+
+/-- **C03 end to end (`number_literal`, general).** For each regenerated culture and every well-formed literal of at
+most 15 digits written with the culture's own marks (standard grouping in the single-mark case of the
+multi-decimal-separator cultures) whose value is at least 10^-6: the resolution string of the number parser reads
+back — with the culture's decimal mark — as exactly the literal's sign and value `numer / 10^scale`, it has no trailing
+fraction zeros, and it consists of digits, an optional `-` and that decimal mark only (no exponent, no grouping mark).
+Outside the guard: a value below 10^-6 is printed in exponent form (`format_canonical`), and a zero written with
+fraction digits prints as `0E-55` (`zero_fraction_witness`). -/
+theorem number_literal_general (tab : DigitTab) (ht : tab.Ascii) (c : Culture) (hc : c ∈ cultures) (l : Literal)
+    (hw : l.WellFormed) (hstd : c.sep.multiDec = true → l.groups.length = 2 → l.frac = none → l.Grouped3)
+    (hb : l.numer < 10 ^ 15) (hge : 10 ^ l.scale ≤ l.numer * 10 ^ 6) :
+    ∃ s M k, digitResolution 15 tab c.sep c.longFormat (l.text (parserMarks c.sep).1 (parserMarks c.sep).2) = .ok s ∧
+      Dec.readPlain (Dec.markOf c.longFormat) s = (l.neg, M, k) ∧ M * 10 ^ l.scale = l.numer * 10 ^ k ∧
+      (0 < k → M % 10 ≠ 0) ∧
+      (∀ ch ∈ s, (48 ≤ ch ∧ ch ≤ 57) ∨ ch = 45 ∨ ch = writtenDecimalMark c) ∧ (writtenMarks c).1 ∉ s := by
+  obtain ⟨r, hr, hneg, hexp, hval⟩ := digital_exact_literal tab ht c hc l hw hstd hb
+  have hadj := Dec.adjusted_of_value r.coeff r.exp l.numer l.scale hexp hval hge
+  obtain ⟨M, k, hread, hM, hz⟩ := format_canonical_reads_back c hc r hexp hadj
+  obtain ⟨hch, hgm⟩ := format_canonical_general c hc r hexp hadj
+  refine ⟨Dec.format c.longFormat r, M, k, ?_, by rw [hread, hneg], ?_, hz, hch, hgm⟩
+  · simp [digitResolution, hr, bind, Except.bind, pure, Except.pure]
+  · -- M·10^E = coeff·10^k and coeff·10^scale = numer·10^E  ⟹  M·10^scale = numer·10^k
+    have h1 : M * 10 ^ l.scale * 10 ^ (-r.exp).toNat = l.numer * 10 ^ k * 10 ^ (-r.exp).toNat := by
+      calc M * 10 ^ l.scale * 10 ^ (-r.exp).toNat = (M * 10 ^ (-r.exp).toNat) * 10 ^ l.scale := by
+            rw [Nat.mul_right_comm]
+        _ = r.coeff * 10 ^ k * 10 ^ l.scale := by rw [hM]
+        _ = (r.coeff * 10 ^ l.scale) * 10 ^ k := by rw [Nat.mul_right_comm]
+        _ = l.numer * 10 ^ (-r.exp).toNat * 10 ^ k := by rw [hval]
+        _ = l.numer * 10 ^ k * 10 ^ (-r.exp).toNat := by rw [Nat.mul_right_comm]
+    exact Nat.eq_of_mul_eq_mul_right (Dec.pow10_pos _) h1
+
+/-- outside the guard of `number_literal_general`: `0.0` resolves to `0E-55` (numerically 0; the zero product
+`Decimal(0.1) * 0` carries the exponent −55 of the exact binary expansion into the sum) -/
+theorem zero_fraction_witness :
+    isOkStr (digitResolution 15 asciiDigits en.sep en.longFormat [48, 46, 48]) [48, 69, 45, 53, 53] = true := by
+  decide +kernel
 
 /-- Beyond the precision: a 16-digit integer is rounded once, half-even, to 15 digits … -/
 theorem digital_round16 :
